@@ -49,6 +49,12 @@ def _pick_delimiters(doc):
         if node.tag in ('ele', 'subele') and node.text:
             if node.get('id') not in ('ISA11', 'ISA16'):
                 data.update(node.text)
+    for seg in doc.iter('seg'):
+        if seg.get('id') == 'ISA':
+            # before 00501, ISA11 is not a separator field: the writer passes it on as it is
+            vals = dict((ele.get('id'), ele.text or '') for ele in seg.iter('ele'))
+            if vals.get('ISA12') != '00501':
+                data.update(vals.get('ISA11', ''))
     picked = []
     for cands in ('~|!\x1c', '*|+!\x1d', ':>\\<\x1f', '^`}{\x1e'):
         for c in cands:
